@@ -38,6 +38,12 @@ pub enum Op {
     /// a forged block on the tip (another miner's) that proposes X, Y and Dsp: when those are
     /// submitted later they enter the pool already proposed
     Foreign,
+    /// a forged block on the tip (another miner's) that embeds, as its uncle, a sibling of the tip
+    /// this node has never seen (only the uncle's header travels inside the block)
+    ForeignUncle,
+    /// the oldest such sibling block itself arrives (a valid side block: an uncle candidate - but one
+    /// the main chain already includes)
+    LateUncle,
 }
 
 #[derive(Clone, Copy, Debug, Serialize, Deserialize, PartialEq, Eq, Hash)]
@@ -234,9 +240,32 @@ impl Runner {
         let mut trace: Vec<String> = vec![];
         let mut ok = true;
         let before = report.violations.len();
+        // sibling blocks embedded as uncles by foreign blocks and not yet delivered themselves
+        let mut late: Vec<BlockView> = vec![];
         for (step, op) in hist.iter().enumerate() {
             let tip = self.drv.node.tip();
             match op {
+                Op::ForeignUncle => {
+                    // the uncle (a sibling of the tip) must belong to the epoch of the block embedding it
+                    if tip.number() == 0 || tip.epoch().index() + 1 >= tip.epoch().length() {
+                        return Ok(None);
+                    }
+                    self.drv.clock += BLOCK_INTERVAL_MS;
+                    set_time(self.drv.clock);
+                    let u = self.twin.build_on(&tip.parent_hash(), &BlockSpec { miner: 6, timestamp: Some(self.drv.clock - 2 - late.len() as u64), ..Default::default() })?;
+                    let b = self.twin.build_on(&tip.hash(), &BlockSpec { miner: 8, uncles: vec![u.as_uncle()], timestamp: Some(self.drv.clock), ..Default::default() })?;
+                    self.drv.node.process(&b).map_err(|e| format!("forged block with an unseen uncle refused: {e}"))?;
+                    trace.push(format!("foreign block #{} embeds an unseen sibling of #{} as uncle", b.number(), tip.number()));
+                    late.push(u);
+                }
+                Op::LateUncle => {
+                    if late.is_empty() {
+                        return Ok(None);
+                    }
+                    let u = late.remove(0);
+                    self.drv.node.process(&u).map_err(|e| format!("late uncle block refused: {e}"))?;
+                    trace.push(format!("the sibling block #{} (already embedded as an uncle) arrives", u.number()));
+                }
                 Op::Submit(i) => {
                     let tx = self.txs[NAMES[*i]].clone();
                     let res = self.drv.node.shared.tx_pool_controller().submit_local_tx(tx).map_err(|e| e.to_string())?;
@@ -349,7 +378,8 @@ impl Runner {
             .collect();
         // siblings delivered and not yet included as uncles
         let siblings: Vec<usize> = hist.iter().enumerate().filter(|(_, o)| matches!(o, Op::Uncle | Op::Reorg)).map(|(i, _)| hist[..i].iter().filter(|o| matches!(o, Op::Mine | Op::Foreign)).count()).collect();
-        let f = fp(&(self.limit, &pool, &chain, &siblings));
+        let embedded: Vec<(usize, bool)> = hist.iter().enumerate().filter(|(_, o)| matches!(o, Op::ForeignUncle | Op::LateUncle)).map(|(i, o)| (hist[..i].iter().filter(|o| matches!(o, Op::Mine | Op::Foreign | Op::ForeignUncle)).count(), *o == Op::LateUncle)).collect();
+        let f = fp(&(self.limit, &pool, &chain, &siblings, &embedded));
         if let Ok(path) = std::env::var("C13_LOG") {
             use std::io::Write;
             if let Ok(mut fh) = std::fs::OpenOptions::new().create(true).append(true).open(format!("{path}.{}", ctx.shard)) {
@@ -415,6 +445,8 @@ fn seeds() -> Vec<Vec<Op>> {
         vec![Op::Foreign, Op::Mine, Op::Submit(0), Op::Submit(6), Op::Submit(7)],
         // the same with an uncle candidate
         vec![Op::Submit(0), Op::Submit(6), Op::Submit(7), Op::Submit(4), Op::Mine, Op::Submit(5), Op::Submit(3), Op::Submit(1), Op::Uncle, Op::Mine],
+        // a foreign block has embedded an uncle this node has not seen yet
+        vec![Op::Mine, Op::ForeignUncle],
     ]
 }
 
@@ -422,7 +454,7 @@ pub fn meta(tier: Tier) -> Meta {
     Meta {
         id: "C13",
         level: "model_checking",
-        rule: "state = operation history over {Submit(t) for 9 designed transactions (chain of three, a join, a dep user and the dep cell's spender, two independent ones, a conflicting replacement), Mine (seal and process the node's own template), Uncle (a forged sibling of the tip arrives), Reorg (two forged blocks on the tip's parent detach the tip), Foreign (a forged block on the tip proposes three of the transactions before they are submitted)} replayed on a real node with tx-pool and block assembler, in a family of worlds: block byte limits on and around the packing boundaries of the universe (three transactions with 0..3 proposals, with an uncle), block cycle limits on and around 2, 3, 4 transactions, and no tight limit (proposal limit 3 in all; 4-block epochs; proposal window 2..4); BFS from seven seed histories (empty; ids proposed by a foreign block before the transactions arrive; four proposed txs; chain + join proposed; one block before the epoch boundary; a fresh tip with three proposed and several unproposed pending txs, without and with an uncle candidate), dedup on (pool entries with stage and links, chain content, siblings delivered). After EVERY operation: the template returned immediately (if it still names the previous tip it is checked on that parent) and the template naming the current tip are sealed (dummy PoW, fresh nonce) and processed by a twin node (chain only) positioned on the named parent: must be accepted; and against the pool dump: every template tx has all its pooled parents earlier in the template, no cell is spent twice, proposals within the limit. non-trivial = state with a proposed tx or an uncle candidate.",
+        rule: "state = operation history over {Submit(t) for 9 designed transactions (chain of three, a join, a dep user and the dep cell's spender, two independent ones, a conflicting replacement), Mine (seal and process the node's own template), Uncle (a forged sibling of the tip arrives), Reorg (two forged blocks on the tip's parent detach the tip), Foreign (a forged block on the tip proposes three of the transactions before they are submitted), ForeignUncle (a forged block on the tip embeds as uncle a sibling of the tip this node has not seen), LateUncle (that sibling block itself arrives)} replayed on a real node with tx-pool and block assembler, in a family of worlds: block byte limits on and around the packing boundaries of the universe (three transactions with 0..3 proposals, with an uncle), block cycle limits on and around 2, 3, 4 transactions, and no tight limit (proposal limit 3 in all; 4-block epochs; proposal window 2..4); BFS from eight seed histories (empty; a foreign block that embedded an unseen uncle; ids proposed by a foreign block before the transactions arrive; four proposed txs; chain + join proposed; one block before the epoch boundary; a fresh tip with three proposed and several unproposed pending txs, without and with an uncle candidate), dedup on (pool entries with stage and links, chain content, siblings delivered). After EVERY operation: the template returned immediately (if it still names the previous tip it is checked on that parent) and the template naming the current tip are sealed (dummy PoW, fresh nonce) and processed by a twin node (chain only) positioned on the named parent: must be accepted; and against the pool dump: every template tx has all its pooled parents earlier in the template, no cell is spent twice, proposals within the limit. non-trivial = state with a proposed tx or an uncle candidate.",
         assumptions: &["template requests are made right after each operation, at quiescence, and at the two gates between the phases of every tip change (blank template / pool updated / template refilled); other moments relative to the assembler's message processing are whatever the real threads produce", "notify scripts / HTTP notification of templates are outside"],
         bounds: json!({"worlds_and_depth_from_seed": worlds(tier).iter().map(|(l, d)| format!("{l:?}:{d}")).collect::<Vec<_>>(), "seeds": seeds().len()}),
     }
@@ -447,7 +479,7 @@ pub fn run(ctx: &Ctx) -> Report {
         return report;
     }
     let mut ops: Vec<Op> = (0..NAMES.len()).map(Op::Submit).collect();
-    ops.extend([Op::Mine, Op::Uncle, Op::Reorg, Op::Foreign]);
+    ops.extend([Op::Mine, Op::Uncle, Op::Reorg, Op::Foreign, Op::ForeignUncle, Op::LateUncle]);
     let mut ri = 0u64;
     for (limit, depth) in worlds(ctx.tier) {
         let mut runner: Option<Runner> = None;
